@@ -272,6 +272,12 @@ def handle (s : DSt) : List String → DSt × String
       match tid.toNat?, parseHex strhex, jsid.toNat? with
       | some tid, some str, some jsid => ({ s with reg := (tid, jsid) :: s.reg }, toHex str)
       | _, _, _ => (s, "bad-op")
+    | ["enum", arity, maxlen, _] =>
+      -- all tuples of `arity` strings over {$,\,a} up to length `maxlen`: `GV.Props.C15.join_esc_injective` (+ the `"$"`
+      -- prefix of string keys) says distinct tuples get distinct keys, so the model's answer is just the count
+      match arity.toNat?, maxlen.toNat? with
+      | some ar, some ml => (s, s!"ok {(((3 ^ (ml + 1) - 1) / 2) ^ ar)}")
+      | _, _ => (s, "bad-op")
     | ["key", _, v] =>
       match parseValue v with
       | some v => let r := keyFor halfFs (mapTid s.reg.fn v) s.kst; ({ s with kst := r.2 }, showKey r.1)
